@@ -560,6 +560,14 @@ def _const_value(prog, m, e):
 
 
 
+def _callees_of(prog, f):
+    from ..backends import callees
+    try:
+        return callees(prog, f, include_args=False)
+    except Exception:      # noqa
+        return []
+
+
 def _model_bindings(spec, xc, yc, xs, ys):
     """sub-terms of the wrapper bound to their values on the model raster with x coordinates xs and y coordinates ys"""
     from ..wterm import key
@@ -1036,7 +1044,18 @@ def check_sweep_skeleton(prog, rep, m):
             'exactly the exiting events delete the node with the cell\'s distance key from the same tree and push the freed id back')
     # CENTER: query and visibility
     inl = getattr(k, 'inlined', [])
-    q = [r for r in inl if r[0].name == '_max_grad_in_status_struct']
+    # the query: the call whose value is the tree search's result - the search function called directly (recorded as a
+    # call or inlined) or through a wrapper that only adds the empty-tree case
+    SEARCH = '_find_max_value_within_key'
+    q = [r for r in inl if r[0].name != SEARCH and any(getattr(x, 'name', '') == SEARCH for x in _callees_of(prog, r[0]))]
+    if not q:
+        q = [r for r in inl if r[0].name == SEARCH]
+    if not q:
+        # recorded (not inlined) call of the search: (func, args, kws, value) with the value the call's result atom
+        for j_, c_ in calls_:
+            if c_[0] == SEARCH:
+                res_ = [a_ for e_ in in_loop for a_ in walk_atoms(e_[1]) if isinstance(a_, App) and a_.name.startswith('call:' + SEARCH)]
+                q.append((m.funcs[SEARCH], c_[1], c_[5] if len(c_) > 5 else {}, Rat.atom(res_[0]) if res_ else None))
     vis = [(j, c) for j, c in calls_ if c[0] == '_set_visibility']
     okq = False
     okvis = False
@@ -1049,8 +1068,17 @@ def check_sweep_skeleton(prog, rep, m):
         if len(vis) == 1:
             j, c = vis[0]
             extra = type_only(c[2])
+            # the compared maximum: the query's value, or that value with the empty-tree case spelled out around it
+            # (`SMALLEST if root == NIL else query`: the constant arm must lie below every gradient, i.e. below -pi/2)
+            qvals = [q[0][3]] if q[0][3] is not None else []
+            for x in guard_atoms(extra):
+                if isinstance(x, App) and x.name == 'ite' and qvals:
+                    arms = [x.args[1], x.args[2]]
+                    other = [a_ for a_ in arms if not (isinstance(a_, Rat) and a_ == qvals[0])]
+                    if len(other) == 1 and isinstance(other[0], Rat) and other[0].is_const() and other[0].const_value() < -2:
+                        qvals.append(Rat.atom(x))
             okg = len(extra) == 1 and extra[0][0] == 'cmp' and extra[0][1] == '<=' and any(
-                _pos_multiple(extra[0][3], q[0][3] - Rat.atom(x)) for x in guard_atoms(extra)
+                _pos_multiple(extra[0][3], qv - Rat.atom(x)) for qv in qvals for x in guard_atoms(extra)
                 if isinstance(x, App) and x.name in ('read', 'cell?') and x.args[0] == node.name and x.args[1] == Rat.const(C['TN_GRAD_1']))
             va = c[1]
             keys = [x for x in walk_atoms(va[3]) if isinstance(x, App) and x.name in ('read', 'cell?') and x.args[0] == node.name] if len(va) == 4 and isinstance(va[3], Rat) else []
